@@ -332,6 +332,49 @@ func factsKey(m map[identFact]bool) string {
 }
 
 // killed: identifiers assigned (or address-taken) by node n.
+// generated adds the facts established by assignments of boolean constants or nil to identifiers
+// (flag = true; p = nil) in block node n.
+func (fg *FlowGraph) generated(n ast.Node, facts map[identFact]bool) map[identFact]bool {
+	as, ok := n.(*ast.AssignStmt)
+	if !ok || len(as.Lhs) != len(as.Rhs) || (as.Tok != token.ASSIGN && as.Tok != token.DEFINE) {
+		return facts
+	}
+	var out map[identFact]bool
+	set := func(k identFact, v bool) {
+		if out == nil {
+			out = map[identFact]bool{}
+			for kk, vv := range facts {
+				out[kk] = vv
+			}
+		}
+		out[k] = v
+	}
+	for i, l := range as.Lhs {
+		id, ok := ast.Unparen(l).(*ast.Ident)
+		if !ok {
+			continue
+		}
+		o := fg.Info.ObjectOf(id)
+		if o == nil {
+			continue
+		}
+		switch boolConst(fg.Info, as.Rhs[i]) {
+		case '1':
+			set(identFact{o, false}, true)
+		case '0':
+			set(identFact{o, false}, false)
+		default:
+			if tv, ok := fg.Info.Types[as.Rhs[i]]; ok && tv.IsNil() {
+				set(identFact{o, true}, true)
+			}
+		}
+	}
+	if out == nil {
+		return facts
+	}
+	return out
+}
+
 func (fg *FlowGraph) killed(n ast.Node, facts map[identFact]bool) map[identFact]bool {
 	if len(facts) == 0 {
 		return facts
@@ -427,6 +470,7 @@ func (fg *FlowGraph) Reach(q PathQuery) (bool, []ast.Node) {
 			}
 			if q.Correlate {
 				facts = fg.killed(b.Nodes[i], facts)
+				facts = fg.generated(b.Nodes[i], facts)
 			}
 		}
 		for si, s := range b.Succs {
